@@ -3,7 +3,6 @@ package c18
 import (
 	"fmt"
 	"math/rand"
-	"os"
 	"regexp"
 	"strings"
 	"time"
@@ -526,9 +525,6 @@ func GenCase(r *rand.Rand) Desc {
 		g := &gen{r: r, rend: map[string]string{}}
 		var d Desc
 		x := r.Intn(100)
-		if f := os.Getenv("C18_FAMILY"); f != "" { // experiments only
-			x = map[string]int{"silent": 0, "quiet": 20, "timeout": 40, "chain": 60}[f]
-		}
 		switch {
 		case x < 15:
 			d = g.silent()
